@@ -238,7 +238,7 @@ class LanguageConfig:
         Calls :meth:`update` with the parsed yaml data and will raise the same exceptions.
         """
         configuration = yaml_loader(string, Loader=YamlLoader)
-        self.update(configuration)
+        self.update(configuration if configuration is not None else {})
 
     def update_from_yaml_file(self, f: typing.TextIO) -> None:
         """
@@ -246,7 +246,7 @@ class LanguageConfig:
         Calls :meth:`update` with the parsed yaml data and will raise the same exceptions.
         """
         configuration = yaml_loader(f, Loader=YamlLoader)
-        self.update(configuration)
+        self.update(configuration if configuration is not None else {})
 
     def set(self, section: str, option: str, value: typing.Any) -> None:
         """
